@@ -380,17 +380,14 @@ _GROUPS = {
 }
 
 
-def shards(tier):
-    n = 1 if tier == "quick" else 12
+def shards(tier, seed=1):
+    q = tier == "quick"
+    n = 1 if q else 12
     out = []
-    for grp, kinds in _GROUPS.items():
-        for meshkind in ("closed", "open", "multitrace"):
-            if meshkind == "multitrace" and grp == "dual":
-                continue
-            ex = {"scalar": 120, "edge": 100, "dual": 60, "bc": 40}[grp]
-            for rep in range(1 if tier == "quick" else 2):
-                out.append({"check": "space", "group": grp, "meshkind": meshkind, "examples": ex * n // (1 if tier == "quick" else 2),
-                            "budget_s": 150 * n, "rep": rep})
+    plan = [("scalar", "closed", 90), ("scalar", "open", 90), ("edge", "closed", 70), ("edge", "open", 70), ("edge", "multitrace", 40),
+            ("dual", "closed", 50), ("dual", "open", 40), ("bc", "closed", 30), ("bc", "open", 30), ("bc", "multitrace", 16), ("scalar", "multitrace", 40)]
+    for grp, mk, ex in plan:
+        out.append({"check": "space", "group": grp, "meshkind": mk, "examples": ex * n, "budget_s": 200 * n})
     out.append({"check": "reject", "examples": 20, "budget_s": 60})
     return out
 
